@@ -12,6 +12,8 @@ def make(ids, data=DATA_ALL, ends=END_ALL, passwords=tuple(proto.PASSWORDS), rep
          ghost_replies=('OKA', 'NO', 'MORE', 'UNL'), with_timeout=True, pbudget=None, dead_probes=True, reannounce=True, alt_announce=False):
     def fn(st, w):
         evs = []
+        if with_timeout and getattr(st, 'orphans', 0):
+            evs.append(('TOO',))      # only ever enabled on a tree that leaves a stale timer behind
         live = {i: inst for i, inst in st.M}
         for i in ids:
             inst = live.get(i)
